@@ -26,6 +26,16 @@ check('C11',
       'Recording clock at the i_lib.Clock seam; reference predicate in mc/checks/c11.py; `*:*` may be accepted or rejected.',
       'DESIGN.md C11')
 
+check('C01',
+      'bounded-exhaustive program enumeration (three slices) through the real lexer/parser/codegen/loader/VM/device wrappers vs an executable reference interpreter',
+      'Every program of slice K (control skeletons, <=6 nodes quick / <=7 thorough), V (all sequences of <=3 commands over a ~66-statement '
+      'alphabet on four populations) and X (commands inside control with operands from loop variables, parameters, return values) is compiled '
+      'and run on the real VM over the simulated LAN; the complete event trace (delays requested, device calls with integer arguments, output) '
+      'must equal the reference interpreter\'s.  Exhaustive within the stated sizes.',
+      'Reference interpreter mc/lang/ref.py (written from docs/language.rst); simulated LAN at the lifxlan seam; recording clock. '
+      'Shapes the manual leaves open are never generated (DESIGN.md section 4).',
+      'DESIGN.md C01')
+
 NOT_YET = 'check not built yet in this session (design in DESIGN.md); will be claimed when its command exists'
 
 
